@@ -235,6 +235,21 @@ CHECKS["C25"] = dict(level="exploration", technique="exact rational reference mo
 CHECKS["C24"] = dict(level="exploration", technique="TLC-generated deformation gradients F=R.U with exact Hencky strain (integer matrices in units of ln2/|q|^4, Mat3.tla) + power identities and tangent moduli judged by TLC on error classes against 4th-order differences of the handler instantiated in long double",
     text="U=Q.diag(2^k).Q^T with rational rotations from integer quaternions, every tie pattern of the stretch exponents, 2 rotations R, 2 dual stresses, isotropic / orthotropic / non-symmetric tangent operators, 1D/2D/3D, plus nearly coincident stretches 2^k(1+2^-t), t=10..50 across the 1e-14 threshold. Judged: E_log = log U exactly (both settings, array overload), T:dE_log = S:dE_GL = J sigma:d for every elementary dF in both settings, round trips, Lagrangian vs Eulerian Cauchy stress, sigma=F.S.F^T/J, material moduli = derivative of the converted stress for T(E)=T0+Ks:(E-E0), spatial moduli (both settings) = push-forward of the material moduli, Truesdell = spatial/J, symmetry for symmetric Ks.",
     note="The statement's '1/2 log b in the Eulerian setting' contradicts the implemented and documented Miehe-Apel-Lambrecht strategy (strain is 1/2 log C in both settings, as the power identity requires): obligation replaced by 'same Lagrangian Hencky strain in both settings'. Abaqus moduli and the array overloads of the conversions are not explored; F not of the form R.U with rational rotations not explored. Open finding: precision loss for nearly coincident stretches.", ref="8/C24")
+CHECKS["C55"] = dict(level="exploration", technique="TLC-generated deformation-gradient lattices + exact Saint Venant-Kirchhoff / Hencky oracle (integer stencils of FiniteStrain.Truth, spectral form in units of ln 2) judged by TLC on calls of mfront-generated behaviours through the generic interface (StrainMeasure.tla)",
+    text="A small-strain isotropic linear elastic law with its stored energy (total and incremental forms) is generated by the current mfront with @StrainMeasure GreenLagrange and Hencky and called in the five strain-driven hypotheses. Every point case requests the 3 stress measures x (no stiffness + the 4 tangent flavours DSIG_DF, DS_DEGL, DPK1_DF, DTAU_DDF), the 4 prediction operators at F0 with a consistent initial stress, and two successive incremental steps Id->F0->F1 in each measure. "
+         "SVK: J sigma, S, P, 4W and the four tangents (J^2 dsigma/dF, dS/dE, dP/dF, dtau/dDF, also as prediction at F0) are compared as EXACT integers computed by TLC from the definitions (objectivity pairs F / R.F with exact rotations, dW = P:dF proved on the oracle). "
+         "Hencky: stresses and energy exact in units of ln 2 for F = R.Q.diag(2^k).Q^T with rational rotations. Tangents are judged against 4th-order differences of the returned stress, against each other (product rule), and against the energy; returned tangent must not depend on K[1]. "
+         "Closed cycles of deformation gradients followed by the incremental form: Simpson work exact for SVK (= energy differences, sum 0), Gauss work / energy / stress closure classes for Hencky.",
+    note="Integer F (stretch <= 4, shears, 90/120/180 degree rotations) and dyadic stretches in rational frames only; nearly coincident stretches belong to C24. "
+         "Plane stress hypotheses (need the axial strain state variable), K[0] > 50, orthotropic laws and StandardFiniteStrainBehaviourIntegrate (native finite-strain DSLs) are not covered. "
+         "Hencky tangents have no exact oracle (FD at 1e-7).", ref="8/C55")
+CHECKS["C44"] = dict(level="exploration", technique="TLC-generated loadings / materials / frames + exact reduced 3D law (Hypotheses.tla component maps, static condensations re-proved by TLC) judged by TLC on calls of mfront-generated behaviours in every hypothesis through the generic interface (BehaviourFrames.tla)",
+    text="Isotropic elasticity (StandardElasticity brick), orthotropic elasticity for the three axes conventions (Default 3D, Pipe all 7 hypotheses, Plate 3D + plane hypotheses; @ComputeStiffnessTensor from 9 engineering constants derived exactly from integer SPD stiffness), von Mises plasticity with linear hardening (StandardElastoViscoPlasticity) and a two-gradient orthotropic generic behaviour are generated by the current mfront. "
+         "Elastic: two successive integer strain increments in each valid (hypothesis, convention); k.stress after each step, k.AxialStrain (plane stress, axisymmetrical generalised plane stress with prescribed AxialStress) and k.tangent are compared as EXACT integers with the reduced / condensed 3D law, and directly with the 3D run of the same behaviour. "
+         "Rotations: rational (integer-quaternion) rotations; isotropic laws commute with the rotation of the loading (exact for elastic, classes for plastic: stress, tangent, p); orthotropic laws through rotateGradients / rotateThermodynamicForces / rotateTangentOperatorBlocks give the exact rotated-material stress and tangent (d^4 scaling), in-place and array variants included. "
+         "Plastic: agreement with the 3D run (axial strain re-injected), sigma_zz = 0 in plane stress, tangent vs 4th-order differences, elastic/plastic regime predicted by TLC.",
+    note="The plastic solution has no independent oracle (consistency between runs only; FD skipped and counted when the stencil straddles the yield surface). "
+         "Axial strain component of the input is zero in the two stress-driven hypotheses. @RequireStiffnessTensor path (mfront::gb::computeOrthotropic*ElasticStiffnessTensor ignores the axes convention), Hill plasticity, thermal expansion, finite strain not covered.", ref="8/C44")
 CHECKS["C39"] = dict(level="model_checking", technique="decode table of K[0] and return convention in TLA+ judged by TLC on calls of a generated probe behaviour + TLC model checking of the entry-point stages",
     text="A probe behaviour with distinguishable operators (1,2,3 x Id predictions; 10..40 x Id tangents) and a run-time selectable failure "
          "stage is generated by the current mfront (small strain, GreenLagrange and Hencky variants) and called through the real generic "
